@@ -147,3 +147,14 @@ Proof. induction l as [|x l IH]; intros H; cbn [filter]; [reflexivity|]. rewrite
 
 Lemma filter_none {A} (P : A -> bool) l : (forall x, In x l -> P x = false) -> filter P l = [].
 Proof. induction l as [|x l IH]; intros H; cbn [filter]; [reflexivity|]. rewrite (H x (or_introl eq_refl)). apply IH. intros y Hy. apply H. right. exact Hy. Qed.
+
+Lemma combine_In_l' {A B} (l : list A) (r : list B) x : Datatypes.length l = Datatypes.length r -> In x l -> exists y, In (x, y) (combine l r).
+Proof.
+  revert r. induction l as [|a l IH]; intros [|b r] Hlen Hin; cbn in *; try discriminate; [destruct Hin|].
+  destruct Hin as [<-|Hin]; [exists b; left; reflexivity|]. destruct (IH r ltac:(lia) Hin) as [y Hy]. exists y. right. exact Hy.
+Qed.
+
+Lemma map_snd_combine' {A B} (l : list A) (r : list B) : Datatypes.length l = Datatypes.length r -> map snd (combine l r) = r.
+Proof.
+  revert r. induction l as [|a l IH]; intros [|b r] Hlen; cbn in *; try discriminate; [reflexivity|]. f_equal. apply IH. lia.
+Qed.
